@@ -161,6 +161,13 @@ func c17GenNameFacts() (string, string) {
 		{"c17_body_GetEnvFromFile", funcBody(parse("dotenv/env.go"), "", "GetEnvFromFile")},
 		{"c17_body_MappingMerge", funcBody(parse("types/mapping.go"), "Mapping", "Merge")},
 		{"c17_body_GetAsEqualsMap", funcBody(parse("utils/stringutils.go"), "", "GetAsEqualsMap")},
+		// round 5: the loader-level entry and the glue between the cli and the loader
+		{"c17_body_SetProjectName", funcBody(ldf, "Options", "SetProjectName")},
+		{"c17_body_loadModelWithContext", funcBody(ldf, "", "loadModelWithContext")},
+		{"c17_body_WithInterpolation", funcBody(of, "", "WithInterpolation")},
+		{"c17_body_WithEnvFile", funcBody(of, "", "WithEnvFile")},
+		{"c17_body_LoadProject", funcBody(of, "ProjectOptions", "LoadProject")},
+		{"c17_body_prepare", funcBody(of, "ProjectOptions", "prepare")},
 	} {
 		fmt.Fprintf(&b, "def %s : String := %s\n", e.name, leanStr(e.body))
 	}
